@@ -91,13 +91,11 @@ func okVarInfo(info *types.Info, scope ast.Node, e ast.Expr) (typ string, x ast.
 }
 
 func checkCandidates(w *World, r *Result) {
-	fi := w.MustFunc("analysis.allNamedTypes")
-	info := fi.Pkg.TypesInfo
-	apps := appendStmts(info, fi.Decl.Body, "")
-	if len(apps) != 1 {
-		Undecided("allNamedTypes: %d appends (expected 1)", len(apps))
+	fi, app := candidatesSite(w)
+	if fi == nil {
+		Undecided("the collection of union candidates (an append of *types.Named while ranging over scope.Names()) was not found in fetchPkgUnions or its helpers")
 	}
-	app := apps[0]
+	info := fi.Pkg.TypesInfo
 	pos := w.Pos(app.Pos())
 	inNames := false
 	ast.Inspect(fi.Decl.Body, func(x ast.Node) bool {
@@ -155,9 +153,10 @@ func checkMemberFilter(w *World, r *Result) {
 	var app *ast.AssignStmt
 	var appFn *FuncInfo
 	napps := 0
+	_, candApp := candidatesSite(w)
 	for _, cf := range calleeClosure(w, fi, 1) {
 		for _, a := range appendStmts(cf.Pkg.TypesInfo, cf.Decl.Body, "") {
-			if t := cf.Pkg.TypesInfo.TypeOf(a.Lhs[0]); t == nil || t.String() != "[]*go/types.Named" {
+			if t := cf.Pkg.TypesInfo.TypeOf(a.Lhs[0]); t == nil || t.String() != "[]*go/types.Named" || a == candApp {
 				continue
 			}
 			// the candidate list (allNamedTypes) is also a []*types.Named: members are the ones appended in
@@ -272,23 +271,27 @@ func checkUnionNode(w *World, r *Result) {
 	fi := w.MustFunc("analysis.(*Analysis).createType")
 	info := fi.Pkg.TypesInfo
 	membersField := w.Field("analysis", "Union", "Members")
+	// the append to Union.Members: in createType, or in a helper of the package it calls
 	var app *ast.AssignStmt
-	ast.Inspect(fi.Decl.Body, func(x ast.Node) bool {
-		as, ok := x.(*ast.AssignStmt)
-		if ok && len(as.Lhs) == 1 {
-			if sel, ok := as.Lhs[0].(*ast.SelectorExpr); ok && info.Uses[sel.Sel] == membersField {
-				app = as
+	var afi *FuncInfo
+	for _, cf := range calleeClosure(w, fi, 1) {
+		ast.Inspect(cf.Decl.Body, func(x ast.Node) bool {
+			as, ok := x.(*ast.AssignStmt)
+			if ok && len(as.Lhs) == 1 {
+				if sel, ok := as.Lhs[0].(*ast.SelectorExpr); ok && info.Uses[sel.Sel] == membersField {
+					app, afi = as, cf
+				}
 			}
-		}
-		return true
-	})
+			return true
+		})
+	}
 	if app == nil {
 		Undecided("createType: no append to Union.Members")
 	}
 	pos := w.Pos(app.Pos())
 	// enclosing range over `members` where members, isUnion := ctx.unions[name]
 	good := false
-	ast.Inspect(fi.Decl.Body, func(x ast.Node) bool {
+	ast.Inspect(afi.Decl.Body, func(x ast.Node) bool {
 		rs, ok := x.(*ast.RangeStmt)
 		if !ok || !(rs.Body.Pos() <= app.Pos() && app.End() <= rs.Body.End()) {
 			return true
@@ -296,8 +299,8 @@ func checkUnionNode(w *World, r *Result) {
 		if len(rs.Body.List) != 1 {
 			return true
 		}
-		call := app.Rhs[0].(*ast.CallExpr)
-		if len(call.Args) != 2 {
+		call, ok := app.Rhs[0].(*ast.CallExpr)
+		if !ok || len(call.Args) != 2 {
 			return true
 		}
 		inner, ok := call.Args[1].(*ast.CallExpr)
@@ -307,10 +310,12 @@ func checkUnionNode(w *World, r *Result) {
 		if identOf(inner.Args[0]) == nil || objOf(info, identOf(inner.Args[0])) != objOf(info, identOf(rs.Value)) {
 			return true
 		}
-		// rs.X defined from a lookup in the unions table keyed by the named type under construction
+		// rs.X defined from a lookup in the unions table keyed by the named type under construction (through the
+		// helper's parameter when the loop was extracted)
 		if id := identOf(rs.X); id != nil {
-			for _, d := range defsIn(info, fi.Decl, objOf(info, id)) {
-				if ix, ok := d.(*ast.IndexExpr); ok && strings.HasSuffix(es(ix.X), ".unions") {
+			ds, _ := defsThrough(w, fi, afi, objOf(info, id))
+			for _, d := range ds {
+				if ix, ok := ast.Unparen(d).(*ast.IndexExpr); ok && strings.HasSuffix(es(ix.X), ".unions") {
 					good = true
 				}
 			}
@@ -457,4 +462,41 @@ func checkImplements(w *World, r *Result) {
 		})
 	}
 	r.cond(order && callOK, "AGR-C11i", pf.Name, "Implements pass covers every struct after analysis", fnPos(w, pf), "all Source types are analysed first, then setImplements runs for every *Struct of the memo", "the Implements pass is not a loop over the whole memo after the analysis loop, or it filters structs")
+}
+
+// candidatesSite locates where the candidates of a package's unions are collected: the one append to a
+// []*types.Named made while ranging over (*types.Scope).Names(), in fetchPkgUnions or in a helper of its package it
+// calls (the collection may be its own function or inlined).
+func candidatesSite(w *World) (*FuncInfo, *ast.AssignStmt) {
+	fu := w.Func("analysis.fetchPkgUnions")
+	if fu == nil {
+		return nil, nil
+	}
+	var rfi *FuncInfo
+	var rapp *ast.AssignStmt
+	n := 0
+	for _, cf := range calleeClosure(w, fu, 2) {
+		info := cf.Pkg.TypesInfo
+		ast.Inspect(cf.Decl.Body, func(x ast.Node) bool {
+			rs, ok := x.(*ast.RangeStmt)
+			if !ok {
+				return true
+			}
+			call, ok := ast.Unparen(rs.X).(*ast.CallExpr)
+			if !ok || fullName(calleeOf(info, call)) != "(*go/types.Scope).Names" {
+				return true
+			}
+			for _, a := range appendStmts(info, rs.Body, "") {
+				if t := info.TypeOf(a.Lhs[0]); t != nil && t.String() == "[]*go/types.Named" {
+					rfi, rapp = cf, a
+					n++
+				}
+			}
+			return true
+		})
+	}
+	if n != 1 {
+		return nil, nil
+	}
+	return rfi, rapp
 }
